@@ -46,37 +46,38 @@ type Rec struct {
 }
 
 type Cfg struct {
-	Backend   string
-	Store     vlib.StoreCfg
-	Messages  int
-	Clients   int
-	Phases    int
-	StaleBias float64 // probability that a settlement presents a non-fresh lease
+	Backend    string
+	Store      vlib.StoreCfg
+	Messages   int
+	Clients    int
+	Phases     int
+	StaleBias  float64  // probability that a settlement presents a non-fresh lease
 	Transports []string // subset of direct, http, grpc
-	Operator  bool     // cancel / requeue by id
-	DequeuePct int     // share of dequeue operations (default 38)
-	Settle    []Kind   // settlement mix (default: ack x2, nack x2, extend, dead)
-	Label     string
-	Mode      Mode
-	Prop      string
+	Operator   bool     // cancel / requeue by id
+	DequeuePct int      // share of dequeue operations (default 38)
+	Settle     []Kind   // settlement mix (default: ack x2, nack x2, extend, dead)
+	Label      string
+	Mode       Mode
+	Prop       string
 }
 
 type World struct {
-	cfg    Cfg
-	c      *vlib.Ctx
-	h      *vlib.Handle
-	clock  *vlib.VClock
-	pull   *pullapi.Server
-	grpcC  workerapipb.WorkerServiceClient
-	closers []func()
-	tick   atomic.Int64
+	noDequeue bool // set between phases only
+	cfg       Cfg
+	c         *vlib.Ctx
+	h         *vlib.Handle
+	clock     *vlib.VClock
+	pull      *pullapi.Server
+	grpcC     workerapipb.WorkerServiceClient
+	closers   []func()
+	tick      atomic.Int64
 
-	mu       sync.Mutex
-	recs     []Rec
-	leaseMsg map[string]string
-	leases   []string
-	leaseSet map[string]int
-	msgs     []string
+	mu        sync.Mutex
+	recs      []Rec
+	leaseMsg  map[string]string
+	leases    []string
+	leaseSet  map[string]int
+	msgs      []string
 	anomalies []string
 }
 
@@ -428,7 +429,7 @@ func (w *World) clientPhase(id int, r *vlib.Rand, held *[]string) {
 		tr := vlib.Pick(r, w.cfg.Transports)
 		now := w.clock.NowNS()
 		switch x := r.Intn(100); {
-		case x < w.cfg.DequeuePct: // dequeue
+		case x < w.cfg.DequeuePct && !w.noDequeue: // dequeue
 			batch := r.Range(1, 5)
 			ttl := vlib.Pick(r, ttls)
 			call := w.now()
@@ -653,6 +654,9 @@ func Run(c *vlib.Ctx, r *vlib.Rand, cfg Cfg) {
 		rands[i] = vlib.NewRand(r.U64())
 	}
 	for ph := 0; ph < cfg.Phases; ph++ {
+		// A phase without dequeues: leases that expired with the last clock step are
+		// presented before any dequeue has swept them.
+		w.noDequeue = ph > 0 && r.Chance(0.3)
 		var wg sync.WaitGroup
 		start := make(chan struct{})
 		for i := 0; i < cfg.Clients; i++ {
